@@ -69,8 +69,12 @@ Effective(e) == ~Has(e, "effective") \/ e.effective    \* a commit that is neith
 
 ---------------------------------------------------------------------------
 (* events of one session *)
+PropOf(st) == IF "prop" \in DOMAIN st.expect THEN st.expect.prop ELSE IOEnv.PROP
 ReqViol(st, e, staged1) ==
   LET k == e.kind IN
+  (* whatever names and expressions the configuration holds, a request of the agent is well-formed XML *)
+  (IF k = "unparseable" THEN {V(PropOf(st), "RequestOfTheAgentIsNotWellFormedXml", "", e)} ELSE {})
+  \cup
   (IF k = "open" /\ e.instance # st.instance THEN {V("C02", "WrongInstanceOpened", e.instance, e)} ELSE {})
   \cup
   (IF k = "commit" /\ ~st.openAcked THEN {V("C04", "CommitWithoutOpenDatabase", "", e)} ELSE {})
@@ -154,7 +158,8 @@ ExitViol(st, e) ==
   \cup (IF ok /\ st.faulted THEN {V("C04", "FailedStepButRunReportedSuccess", "", e)} ELSE {})
   \cup (IF ~ok /\ ~st.faulted /\ st.irrmode = "ok" /\ ~e.timed_out /\ ~(Has(st.expect, "foreign") /\ st.expect.foreign)
         THEN {V(st.expect.prop, "RunFailedWithoutAnyFault",
-                IF e.panicked THEN "a task panicked" ELSE IF st.repeat THEN "repeat run (read-back of the installed state)" ELSE "exit " \o ToString(e.code), e)}
+                IF e.panicked THEN "a task panicked" ELSE IF st.repeat THEN "repeat run (read-back of the installed state)"
+                ELSE IF st.style # "" THEN "replies re-serialised: " \o st.style ELSE "exit " \o ToString(e.code), e)}
         ELSE {})
 
 EndViol(st, e) ==
@@ -252,7 +257,6 @@ Step(st, e) ==
     [] e.ev = "run_end" -> [st EXCEPT !.prevEnd = st.eph]
     [] OTHER -> st
 
-PropOf(st) == IF "prop" \in DOMAIN st.expect THEN st.expect.prop ELSE IOEnv.PROP
 LineViol(st, st1, e) ==
   CASE e.ev = "req" -> ReqViol(st, e, st1.staged)
     [] e.ev = "exit" -> ExitViol(st, e)
